@@ -1306,3 +1306,6 @@ func Size(ts ...*Term) int {
 	}
 	return len(seen)
 }
+
+// HasQuant reports whether t contains a quantifier.
+func (t *Term) HasQuant() bool { return hasQuant(t, map[*Term]bool{}) }
